@@ -264,6 +264,7 @@ def verify_function(I, c, fi):
     worklist = [[]]
     I.current_target = fi.qualname
     I.current_contract = c
+    I.db.active_variant = c.callee_variant
     I.inlined = set()
     I.used_contracts = set()
     I.drops = set()
@@ -285,6 +286,7 @@ def verify_function(I, c, fi):
     finally:
         I.current_target = None
         I.current_contract = None
+        I.db.active_variant = None
     seen = {}
     for key, ob in sink:
         if key not in seen:
